@@ -913,7 +913,12 @@ phases:
 		dwait = 200 * time.Millisecond
 	}
 	dctx, dcancel := context.WithTimeout(context.Background(), dwait)
-	_ = cli.Disconnect(dctx)
+	dd := make(chan struct{})
+	go func() { _ = cli.Disconnect(dctx); close(dd) }()
+	select {
+	case <-dd:
+	case <-time.After(5 * time.Second): // Disconnect stuck behind a lock: leave it behind
+	}
 	dcancel()
 	cancel()
 	for _, c := range conns {
